@@ -44,6 +44,30 @@ def is_cutplace_error(cutplace_errors, error):
     return isinstance(error, cutplace_errors.CutplaceError)
 
 
+class Hang(BaseException):
+    """The system under test did not come back within the deadline (BaseException: it must pass through the
+    ``except Exception`` clauses of the code under test)."""
+
+
+def call_with_deadline(seconds, function, *args, **kwargs):
+    """Like ``call`` but gives up after ``seconds`` of wall clock: ("hang", Hang).  Only for code paths where
+    non-termination is a possible outcome that an oracle wants to judge (the run-level watchdog stays armed)."""
+    import signal
+
+    def give_up(signum, frame):
+        raise Hang("no result after %s s" % seconds)
+
+    previous_handler = signal.signal(signal.SIGALRM, give_up)
+    previous_delay, _ = signal.setitimer(signal.ITIMER_REAL, seconds)
+    try:
+        return call(function, *args, **kwargs)
+    except Hang as error:
+        return "hang", error
+    finally:
+        signal.signal(signal.SIGALRM, previous_handler)
+        signal.setitimer(signal.ITIMER_REAL, max(1.0, previous_delay - seconds) if previous_delay else 0)
+
+
 def call(function, *args, **kwargs):
     """("ok", value) or ("exc", exception) — every Exception of the system under test is an outcome."""
     try:
